@@ -142,6 +142,10 @@ func (f *Frame) call(c *ssa.CallCommon, instr ssa.Value, st *State, reach string
 	f.curArgs = c.Args
 	if fn := c.StaticCallee(); fn != nil {
 		switch fn.String() {
+		case "github.com/cosmos/cosmos-sdk/types.KVStorePrefixIterator":
+			if v, ok := f.kvIterator(args, instr, st); ok {
+				return v
+			}
 		case "fmt.Sprintf":
 			if v, ok := f.sprintf(c, args, instr.Name()); ok {
 				return v
@@ -288,6 +292,11 @@ func (f *Frame) call(c *ssa.CallCommon, instr ssa.Value, st *State, reach string
 	if c.IsInvoke() {
 		if v, ok := f.codecCall(c, args, instr, st, reach, pos); ok {
 			return v
+		}
+		if len(args) > 0 && args[0].Sort == "Iter" && g.kvIters[args[0].Term] != nil {
+			if v, ok := f.kvIterMethod(c.Method.Name(), args[0], instr, st, resT); ok {
+				return v
+			}
 		}
 		if hc := g.hashState[args[0].Term]; hc != nil {
 			// sha256 object: Write appends, Sum returns the digest of what was written (sha256raw, uninterpreted)
@@ -660,6 +669,9 @@ func (f *Frame) applyContract(ct *Contract, key string, names []string, sig *typ
 		g.relied[ct.PkgPath+"::"+ct.Key] = true
 		if ct.Refined != "" {
 			g.relied[ct.PkgPath+"::"+ct.Refined] = true
+		}
+		if ct.Trusted && ct.View == "" && g.w.contracts[ct.PkgPath+"::"+ct.Key+"@store"] != nil {
+			// the verified store-level contract of the same function is what stands behind the trusted table-level one
 			g.relied[ct.PkgPath+"::"+ct.Key+"@store"] = true
 		}
 	}
@@ -1133,7 +1145,7 @@ func (f *Frame) codecCall(c *ssa.CallCommon, args []Val, instr ssa.Value, st *St
 		}
 		return out, true
 	case "MustUnmarshal", "Unmarshal":
-		_, srt, ok := structOf(args[2])
+		curVal, srt, ok := structOf(args[2])
 		if !ok {
 			return Val{}, false
 		}
@@ -1142,7 +1154,15 @@ func (f *Frame) codecCall(c *ssa.CallCommon, args []Val, instr ssa.Value, st *St
 		if args[2].Ptr.Cell != nil && len(args[2].Ptr.Path) == 0 {
 			el = args[2].Ptr.Cell.goT
 		}
-		dec := g.def(f.name(instr)+"_dec", srt, fmt.Sprintf("(unmarshal_%s %s)", mangle(srt), args[1].Term))
+		// protobuf decoding MERGES into its target: fields absent from the encoding (proto3 omits empty ones) keep what
+		// the target held. Only a target that still holds its zero value ends up as the decoded message.
+		decTerm := fmt.Sprintf("(unmarshal_%s %s)", mangle(srt), args[1].Term)
+		if z := g.sorts.zero(srt, el); z != "" && !g.isZeroTerm(curVal.Term, z) {
+			mf := g.uf("unmarshal_into_"+mangle(srt), []string{srt, "Str"}, srt)
+			decTerm = fmt.Sprintf("(%s %s %s)", mf, curVal.Term, args[1].Term)
+			g.note("decoding into a target that may already hold data (%s): protobuf merges, the result is not determined by the bytes alone", f.name(instr))
+		}
+		dec := g.def(f.name(instr)+"_dec", srt, decTerm)
 		if el != nil {
 			for _, inv := range g.typeInv(dec, el, 0) {
 				g.assume(inv) // a decoded message is a well-formed Go value
@@ -1447,4 +1467,111 @@ func varargsLen(c *ssa.CallCommon) int {
 		return int(at.Len())
 	}
 	return 0
+}
+
+// isZeroTerm: is the term (after following the definitions emitted so far) syntactically the zero value z?
+func (g *Gen) isZeroTerm(term, z string) bool {
+	for i := 0; i < 6; i++ {
+		if term == z {
+			return true
+		}
+		def := ""
+		pre := "(assert (= " + term + " "
+		for j := len(g.buf) - 1; j >= 0; j-- {
+			if strings.HasPrefix(g.buf[j], pre) {
+				def = strings.TrimSuffix(g.buf[j][len(pre):], "))")
+				break
+			}
+		}
+		if def == "" {
+			return false
+		}
+		term = def
+	}
+	return false
+}
+
+// ---------------------------------------------------------------------------
+// store iterators (A-ITER made explicit): sdk.KVStorePrefixIterator(store, p) enumerates, in ascending key order,
+// exactly the entries of the store (as it is when the iterator is created) whose key starts with the store's own prefix
+// followed by p. The enumeration is an uninterpreted function from positions to full keys with these three properties;
+// Valid/Next/Value/Key/Close walk it. In contracts: iterpos, rangekey(j), rangecount.
+
+type kvIter struct {
+	cell   *Cell  // position: number of Next calls so far
+	cnt    string // number of entries
+	kv0    string // the store when the iterator was created
+	prefix string // full prefix enumerated
+	sp     string // the store's own prefix (stripped from Key())
+	inv    string // position of a key in the enumeration
+}
+
+func (f *Frame) kvIterator(args []Val, instr ssa.Value, st *State) (Val, bool) {
+	g := f.g
+	if len(args) != 2 || g.w.world["W.kv"] == nil {
+		return Val{}, false
+	}
+	g.useTheory("kv")
+	sp := ""
+	switch args[0].Sort {
+	case "Str":
+		sp = args[0].Term
+	case "Iface":
+		sp = fmt.Sprintf("(store_prefix %s)", args[0].Term)
+	default:
+		return Val{}, false
+	}
+	pfx := args[1].Term
+	if pfx == "Bytes_nil" || pfx == "" {
+		pfx = strLit("")
+	}
+	if args[1].Sort != "Str" {
+		return Val{}, false
+	}
+	full := g.def(f.name(instr)+"_prefix", "Str", fmt.Sprintf("(str_cat %s %s)", sp, pfx))
+	kv0 := g.heapGet(st, "W.kv")
+	en := g.uf(f.name(instr)+"_enum", []string{"Int"}, "Str")
+	cnt := g.fresh(f.name(instr)+"_count", "Int")
+	optS := g.sorts.ensureOption("Str")
+	g.assume(fmt.Sprintf("(>= %s 0)", cnt))
+	// every enumerated key is present and has the prefix
+	g.assume(fmt.Sprintf("(forall ((i Int)) (! (=> (and (<= 0 i) (< i %s)) (and ((_ is some_%s) (select %s (%s i))) (str_prefixof %s (%s i)))) :pattern ((%s i))))", cnt, optS, kv0, en, full, en, en))
+	// ascending, hence without repetition
+	g.assume(fmt.Sprintf("(forall ((i Int) (j Int)) (! (=> (and (<= 0 i) (< i j) (< j %s)) (and (str_lt (%s i) (%s j)) (not (= (%s i) (%s j))))) :pattern ((%s i) (%s j))))", cnt, en, en, en, en, en, en))
+	// every present key with the prefix is enumerated
+	inv := g.uf(f.name(instr)+"_index", []string{"Str"}, "Int")
+	g.assume(fmt.Sprintf("(forall ((k Str)) (! (=> (and ((_ is some_%s) (select %s k)) (str_prefixof %s k)) (and (<= 0 (%s k)) (< (%s k) %s) (= (%s (%s k)) k))) :pattern ((%s k))))", optS, kv0, full, inv, inv, cnt, en, inv, inv))
+	cell := g.newCell(f.prefix+instr.Name()+"_pos", "Int", types.Typ[types.Int])
+	st.cells[cell] = Val{Sort: "Int", Term: "0"}
+	if g.kvIters == nil {
+		g.kvIters = map[string]*kvIter{}
+	}
+	g.kvIters[en] = &kvIter{cell: cell, cnt: cnt, kv0: kv0, prefix: full, sp: sp, inv: inv}
+	g.trusted["store iterator (A-ITER: enumerates exactly the entries under its prefix, in ascending key order, as of its creation)"] = true
+	return Val{Sort: "Iter", Term: en, Tuple: []Val{{Sort: "Int", Term: cnt}}, GoT: instr.Type()}, true
+}
+
+func (f *Frame) kvIterMethod(name string, it Val, instr ssa.Value, st *State, resT types.Type) (Val, bool) {
+	g := f.g
+	ki := g.kvIters[it.Term]
+	pos := g.load(st, &Addr{Cell: ki.cell}, nil)
+	switch name {
+	case "Valid":
+		return Val{Sort: "Bool", Term: g.def(f.name(instr), "Bool", fmt.Sprintf("(< %s %s)", pos.Term, ki.cnt)), GoT: resT}, true
+	case "Next":
+		st.cells[ki.cell] = Val{Sort: "Int", Term: g.def(f.name(instr)+"_pos", "Int", fmt.Sprintf("(+ %s 1)", pos.Term))}
+		return Val{}, true
+	case "Value":
+		optS := g.sorts.ensureOption("Str")
+		return Val{Sort: "Str", Term: g.def(f.name(instr), "Str", fmt.Sprintf("(val_%s (select %s (%s %s)))", optS, ki.kv0, it.Term, pos.Term)), GoT: resT}, true
+	case "Key":
+		k := g.fresh(f.name(instr), "Str")
+		g.assume(fmt.Sprintf("(= (str_cat %s %s) (%s %s))", ki.sp, k, it.Term, pos.Term))
+		return Val{Sort: "Str", Term: k, GoT: resT}, true
+	case "Close":
+		return Val{Sort: "Err", Term: "Err_nil", GoT: resT}, true
+	case "Error":
+		return Val{Sort: "Err", Term: "Err_nil", GoT: resT}, true
+	}
+	return Val{}, false
 }
